@@ -26,6 +26,7 @@ struct Options {
     bool introspect = false;
     bool observe_flags = false;
     bool submit_in_nt = false;
+    bool stop_with_pending = false;
     int warm_n = 0; int warm_ev = 0;     // after start: warm_n x pe(warm_ev) as an uncounted prefix
     double deadline_s = 1e9;
     std::string out;
@@ -73,6 +74,7 @@ inline Exec run_history(const History& h, const Options& o, bool want_intro, std
     {
         std::unique_ptr<zoo::RootT> root(new zoo::RootT());
         g_root = root.get();
+        zoo::vf_prepare(*root);
         for (size_t i = 0; i < h.size(); ++i) {
             const Step& st = h[i];
             E.begin_op(st.tape);
@@ -128,6 +130,7 @@ inline bool op_enabled(const std::pair<std::string,int>& op, const Exec& st, con
     if (!st.started) return false;
     if (n == "pe" || n == "eq") return st.pending < o.qbound;
     if (n == "xs") return st.pending > 0;
+    if (n == "stop") return st.pending == 0 || o.stop_with_pending;   // events pending across stop()/start(): unspecified corner
     return true;
 }
 
@@ -270,6 +273,7 @@ int main(int argc, char** argv) {
         else if (a == "--introspect") o.introspect = true;
         else if (a == "--observe-flags") o.observe_flags = true;
         else if (a == "--submit-in-nt") o.submit_in_nt = true;
+        else if (a == "--stop-with-pending") o.stop_with_pending = true;
         else if (a == "--warm") { auto p = vfx::split(next(), ':'); o.warm_n = atoi(p[0].c_str()); o.warm_ev = atoi(p[1].c_str()); }
         else if (a == "--deadline") o.deadline_s = atof(next().c_str());
         else if (a == "--out") o.out = next();
